@@ -69,6 +69,7 @@ fn main() {
     }
     let code = match args[0].as_str() {
         "C13" => dispatch(props::c13::C13, &args),
+        "C14" => dispatch(props::c14::C14, &args),
         "C20" => dispatch(props::c20::C20, &args),
         other => {
             eprintln!("unknown property '{}'", other);
